@@ -767,13 +767,10 @@ int SimulateMsp430::two_operand_exe(uint16_t opcode)
       src = get_data(src_reg, As, bw, ea);
       update_reg(src_reg, As, bw);
       dst = get_data(dst_reg, Ad, bw, ea);
-      src = ((~((uint16_t)src)) & 0xffff) + 1;
-      if (bw == BW_BYTE)
-      {
-        dst = dst & 0xff;
-        src = src & 0xff;
-      }
-      result = dst + src;
+      // dst - src is dst + ~src + 1: carry and overflow come from that sum.
+      src = (~src) & (bw == BW_BYTE ? 0xff : 0xffff);
+      if (bw == BW_BYTE) { dst = dst & 0xff; }
+      result = dst + src + 1;
       update_v(dst, src, result, bw);
       dst = result & 0xffff;
       put_data(ea, dst_reg, Ad, bw, dst);
@@ -784,13 +781,10 @@ int SimulateMsp430::two_operand_exe(uint16_t opcode)
       src = get_data(src_reg, As, bw, ea);
       update_reg(src_reg, As, bw);
       dst = get_data(dst_reg, Ad, bw, ea);
-      src = ((~((uint16_t)src)) & 0xffff) + 1;
-      if (bw == BW_BYTE)
-      {
-        dst = dst & 0xff;
-        src = src & 0xff;
-      }
-      result = dst + src;
+      // dst - src is dst + ~src + 1: carry and overflow come from that sum.
+      src = (~src) & (bw == BW_BYTE ? 0xff : 0xffff);
+      if (bw == BW_BYTE) { dst = dst & 0xff; }
+      result = dst + src + 1;
       update_v(dst, src, result, bw);
       dst = result & 0xffff;
       update_nz(dst, bw);
